@@ -276,6 +276,18 @@ func enroll(t vkit.TB, c config, state, params *structpb.Struct, subst string) b
 	if len(loaded.RegistrationNonce) != 0 || len(loaded.CertificateBundles) != 2 {
 		return fail("node-credentials-shape", "after enrollment: nonce cleared=%v bundles=%d", len(loaded.RegistrationNonce) == 0, len(loaded.CertificateBundles))
 	}
+	// the same honest response delivered a second time (a retry, a duplicate): the
+	// node may refuse it, but if it accepts it nothing may change
+	if again, derr := a.Creds.HandleFetchNodeCredentialsResponse(w.Ctx, a.Store, resp, handleOpts...); derr == nil {
+		re, lerr := types.LoadNodeCredentials(w.Ctx, a.Store, nodeenrollment.CurrentId, nodeOpts...)
+		if lerr != nil || !proto.Equal(re, again) || len(re.CertificateBundles) != 2 || !proto.Equal(re, loaded) {
+			n := -1
+			if re != nil {
+				n = len(re.CertificateBundles)
+			}
+			return fail("duplicate-delivery-changed-credentials", "the node accepted the same honest response a second time and its stored credentials changed (certificate bundles now: %d, load error: %v)", n, lerr)
+		}
+	}
 	cfgs, err := nodetls.ClientConfigs(w.Ctx, loaded)
 	wantCfgs := 1
 	if c.Roots == "both-valid" {
